@@ -73,6 +73,40 @@ def wave_run(c, delays, sims_alloc, i, t, f, caps, strip=False, reuse=False, cud
     return ws
 
 
+def dataset_tie(ws, nds, srng):
+    """tie of C06.selectDataset (Model/WaveIO.lean) to `_wave_eval` lines 165-176: the real function is called with a `delays`
+    object that records which data-set index it is asked for, per lane, with random per-lane modes 0/1 (mixed), seeds and choices —
+    in bounds and out of bounds (IndexError <-> `none`); mode 2 is outside the model. Returns None or a description of the mismatch."""
+    from kyupy import wave_sim
+    if len(ws.ops) == 0: return None
+    real_delays = np.array(ws.delays)
+    class Rec:
+        def __init__(self): self.asked = []
+        def __len__(self): return nds
+        def __getitem__(self, i):
+            self.asked.append(int(i))
+            if not 0 <= int(i) < nds: raise IndexError(i)
+            return real_delays[int(i) % len(real_delays)]
+    lanes = ws.sims
+    seed = srng.choice([0, 1, nds - 1, nds, nds + 3]) if srng.random() < 0.3 else srng.randrange(max(nds, 1))
+    modes = [srng.randrange(2) for _ in range(lanes)]
+    sel = [srng.randrange(nds + 2) if srng.random() < 0.3 else srng.randrange(max(nds, 1)) for _ in range(lanes)]
+    real = []
+    for lane in range(lanes):
+        rec = Rec()
+        ctl = np.array([sel[lane], modes[lane]], dtype=np.int32)
+        try:
+            with common.quiet():
+                wave_sim._wave_eval(np.array(ws.ops[0]), np.array(ws.c).copy(), ws.c_locs, ws.c_caps, lane, rec, ctl, seed)
+            real.append(str(rec.asked[0]) if rec.asked else '?')
+        except IndexError:
+            real.append('-')
+    model = common.run_driver([f"wio-dataset {nds} {seed} {','.join(map(str, modes))} {','.join(map(str, sel))}"])[0].split(',')
+    if real != model:
+        return f'nsets={nds} seed={seed} modes={modes} simctl0={sel}: real _wave_eval indexes delays with {real}, model selectDataset gives {model}'
+    return None
+
+
 def stems_nonmonotone(c, ws, lane):
     """does the (un-stripped) run contain a waveform on a fork input line that is not strictly increasing?"""
     cc = np.array(ws.c)
@@ -242,6 +276,8 @@ def eval_case(case):
     def fields(ws, n=None): return np.array(ws.s)[3:, :, :(n or sims)]
     if cl == 'wave-dataset':
         d = srng.randrange(nds)
+        for nn in (nds, 1, 2):
+            case['_tie'] = case.get('_tie') or dataset_tie(wc.make_sim(c, delays, sims, c_caps=case['caps']), nn, srng)
         ref = wave_run(c, delays[d], sims, i, t, f, case['caps'], case['strip'], case['reuse'])
         g0 = wave_run(c, delays, sims, i, t, f, case['caps'], case['strip'], case['reuse'], mode=0, seed=d)
         if not np.array_equal(fields(g0), fields(ref)):
@@ -326,6 +362,15 @@ def oracle(ck, n, thorough=False):
                 if th['violation'] is not None:
                     ck.violation('config-wave-strip', 'un-stripped and stripped WaveSim differ although the hypotheses of the fork-stripping theorem hold',
                                  cs, th['violation'][0], th['violation'][1])
+        dtie = cs.pop('_tie', None)
+        if cs['clause'] == 'wave-dataset':
+            tags.append('tie-dataset:' + ('ok' if dtie is None else 'BROKEN'))
+            if dtie is not None:
+                ck.broken_tie('data-set selection model (WaveIO.selectDataset vs _wave_eval lines 165-176)', str(dtie)[:400],
+                              inp={k: v for k, v in cs.items() if k != 'circuit'})
+        if cs['clause'].startswith(('logic-', 'wave-')) and cs['clause'] != 'wave-strip-witness':
+            # hypotheses of the *_all_circuits theorems (strip_irrelevant_logic*, strip_equiv_all_circuits, reuse) on the REAL circuit
+            tags.append(common.allcirc_hyp(ck, pickle.loads(base64.b64decode(cs['circuit'])), [True], 'C06'))
         ck.case(key=(cs['circuit'][:80], cs['clause'], cs['sseed'], cs['dseed']), sample={k: v for k, v in cs.items() if k != 'circuit'},
                 tag=tags)
         if not ok:
@@ -340,7 +385,8 @@ def run(ck):
     pathtie.corr(ck, 80 if ck.tier == 'quick' else 1200)
     if ck.broken and not ck.violations: oracle(ck, n * 4, ck.tier == 'thorough')
     ck.assumptions += ['GPU-kernel code path = the cuda.jit kernels executed by MockCuda (no CUDA device here)',
-                       'delay data-set mode 2 (pseudo-random pick) is not part of the statement']
+                       'delay data-set mode 2 (pseudo-random pick) is not part of the statement; modes 0/1 incl. mixed per-lane modes and out-of-range indices: the index the real _wave_eval applies to delays is compared per lane with WaveIO.selectDataset (driver wio-dataset, tag tie-dataset)',
+                       'WaveSim lanes / c_prop(sims=k) / lane permutation / data set per lane / reuse: theorems cprop_first_k, cprop_lane_position, cprop_lane_permutation, dataset_lane(_select), wave_reuse_irrelevant about the models (Model/WaveIO.lean cpuCProp with ANY evaluator function; C03 memory model); the real runs are compared by the cross-configuration oracle; whole propagation cpuCProp/gpuCProp on raw arrays is NOT tied by a driver command (the evaluator _wave_eval is tied in C03, the launch in C07, accumulation in C13), s_to_c / s_ppo_to_ppi / capture scan / whole c_to_s ARE (clause path-tie, driver wio-*), and the table hypotheses of the whole-array theorems are evaluated by the driver (wio-hyp)']
     return ck.finish(RULE)
 
 
